@@ -628,7 +628,7 @@ func (vm *VM) convert(from, to types.Type, v Value) Value {
 			}
 			s, ok := v.(string)
 			if !ok {
-				vmErr("[]rune of symbolic string")
+				return Slice(vm.decodeRunes(strBytes(v)))
 			}
 			rs := []rune(s)
 			out := make(Slice, len(rs))
